@@ -256,7 +256,7 @@ Section C12tx.
     match r with Some h => h <= hi | None => True end.
   Proof.
     intros pre post m0 s c p lo hi r s' c' p' HS Hss Hhi H.
-    unfold tx_interval in H. cbv zeta in H.
+    unfold tx_interval, transmit_capacity_clamp in H. cbv zeta in H.
     match type of H with context [if ?b then _ else _] => destruct b eqn:E0 end.
     { injection H as <- <- <- <-. unfold same12. repeat split; auto. }
     match type of H with context [sfc_acquire c (s_fc s) ?e] =>
@@ -510,6 +510,479 @@ Section C12tx.
       split; [|split; assumption].
       eapply St12_upd; eauto. intros ms [Q0 Q1]. split; [intros Hz; cbn in Hz; contradiction|].
       intros _. destruct (Q1 K0) as (C1 & C2 & C2' & C3 & C4 & C5 & C6 & C7). cbn.
-      repeat split; auto. rewrite K5, B5. reflexivity.
+      rewrite B5. repeat split; auto.
+  Qed.
+
+  Definition StL12 (l : list sst) (p : pkt) (m0 : mon) : Prop :=
+    exists m, (length l = N.to_nat n /\ Rall12 0 l (m_streams m)) /\ Acc12 salt n m0 p m.
+
+  Lemma tx_all12 : forall l pre c p m0 l' c' p',
+    StL12 (pre ++ l) p m0 -> tx_all salt l c p = (l', c', p') -> StL12 (pre ++ l') p' m0.
+  Proof.
+    induction l as [|s t IH]; intros pre c p m0 l' c' p' HS H; cbn [tx_all] in H.
+    - injection H as <- <- <-. exact HS.
+    - destruct (ss_transmit salt s c p) as [[[r s1] c1] p1] eqn:Es.
+      destruct (ss_transmit12 pre t m0 s c p r s1 c1 p1 HS Es) as (HS1 & _).
+      destruct r.
+      + destruct (tx_all salt t c1 p1) as [[t2 c2] p2] eqn:Et. injection H as <- <- <-.
+        assert (HS1' : StL12 ((pre ++ [s1]) ++ t) p1 m0) by (rewrite <- app_assoc; exact HS1).
+        specialize (IH _ _ _ _ _ _ _ HS1' Et). rewrite <- app_assoc in IH. exact IH.
+      + injection H as <- <- <-. exact HS1.
+  Qed.
+
+  Lemma tx_one12 : forall i l pre c p m0 l' c' p',
+    StL12 (pre ++ l) p m0 -> tx_one salt i l c p = (l', c', p') -> StL12 (pre ++ l') p' m0.
+  Proof.
+    induction i as [|i IH]; intros [|s t] pre c p m0 l' c' p' HS H; cbn [tx_one] in H.
+    - injection H as <- <- <-. exact HS.
+    - destruct (ss_transmit salt s c p) as [[[r s1] c1] p1] eqn:Es.
+      destruct (ss_transmit12 pre t m0 s c p r s1 c1 p1 HS Es) as (HS1 & _).
+      injection H as <- <- <-. exact HS1.
+    - injection H as <- <- <-. exact HS.
+    - destruct (tx_one salt i t c p) as [[t2 c2] p2] eqn:Et. injection H as <- <- <-.
+      assert (HS' : StL12 ((pre ++ [s]) ++ t) p m0) by (rewrite <- app_assoc; exact HS).
+      specialize (IH _ _ _ _ _ _ _ _ HS' Et). rewrite <- app_assoc in IH. exact IH.
+  Qed.
+
+  Lemma conn_transmit12 : forall k m t cap cons md k' fs,
+    length (k_streams k) = N.to_nat n -> Rall12 0 (k_streams k) (m_streams m) ->
+    conn_transmit salt k t cap cons md = (k', fs) ->
+    exists m', chk_frames (chk12 salt n) n m fs = Some m' /\
+               length (k_streams k') = N.to_nat n /\ Rall12 0 (k_streams k') (m_streams m').
+  Proof.
+    intros k m t cap cons md k' fs I1 I2 H. unfold conn_transmit in H. cbv zeta in H.
+    set (p0 := mk_pkt cap (k_pn k) cons []) in *.
+    assert (HA0 : Acc12 salt n m p0 m) by reflexivity.
+    match type of H with (match ?X with pair _ _ => _ end) = _ => destruct X as [[l c] p] eqn:EX end.
+    injection H as <- <-.
+    assert (HS : StL12 l p m).
+    { destruct (((md =? 0) || (md =? 1)) && (can_transmit cons || can_retransmit cons))%bool.
+      - destruct (dlv_try (ps_d (c_dbs (k_flow k))) cons).
+        + destruct (cap <? 1 + vlen (ps_latest (c_dbs (k_flow k)))).
+          * injection EX as <- <- <-. exists m. repeat split; auto.
+          * match type of EX with context [p_write p0 ?sz ?f] => set (p1 := p_write p0 sz f) in * end.
+            assert (HS1 : StL12 ([] ++ k_streams k) p1 m).
+            { exists m. split; [split; auto|]. apply emit_db12; auto. }
+            destruct t as [|tp].
+            -- apply (tx_all12 _ [] _ _ _ _ _ _ HS1 EX).
+            -- apply (tx_one12 _ _ [] _ _ _ _ _ _ HS1 EX).
+        + assert (HS1 : StL12 ([] ++ k_streams k) p0 m) by (exists m; repeat split; auto).
+          destruct t as [|tp].
+          -- apply (tx_all12 _ [] _ _ _ _ _ _ HS1 EX).
+          -- apply (tx_one12 _ _ [] _ _ _ _ _ _ HS1 EX).
+      - injection EX as <- <- <-. exists m. repeat split; auto. }
+    destruct HS as [m' [(J1 & J2) HA]].
+    exists m'. split; [exact HA|]. split; assumption.
   Qed.
 End C12tx.
+
+(* ---------------------------------------------------------------------------------------------- *)
+(* the other operations                                                                             *)
+
+Lemma Rall12_upd_at : forall (F : sst -> sst) (G : mstream -> mstream) d j i l ml,
+  Rall i l ml -> Rall12 i l ml ->
+  (forall ms, R03 (nth j l d) ms -> R12 (nth j l d) ms -> R12 (F (nth j l d)) (G ms)) ->
+  (s_sid (F (nth j l d)) = s_sid (nth j l d) /\ s_k (F (nth j l d)) = s_k (nth j l d)) ->
+  Rall12 i (upd_nth j l F) (upd_ms j ml G).
+Proof.
+  intros F G d. induction j as [|j IH]; intros i [|s t] [|ms mt] H3 H12 HR Hs;
+    cbn [Rall Rall12 upd_nth upd_ms nth] in *; try contradiction; auto.
+  - destruct H3 as (_ & R3 & _). destruct H12 as ((K1 & K2) & R & T). destruct Hs as [Hs1 Hs2].
+    rewrite Hs1, Hs2. auto.
+  - destruct H3 as (_ & _ & T3). destruct H12 as (K & R & T). split; [assumption|split; [assumption|]]. apply IH; auto.
+Qed.
+
+Lemma Rall12_map : forall (F : sst -> sst),
+  (forall s ms, R12 s ms -> R12 (F s) ms) -> (forall s, s_sid (F s) = s_sid s /\ s_k (F s) = s_k s) ->
+  forall l i ml, Rall12 i l ml -> Rall12 i (map F l) ml.
+Proof.
+  intros F HR Hs. induction l as [|s t IH]; intros i [|ms mt] H; cbn [Rall12 map] in *; auto.
+  destruct H as ((K1 & K2) & R & T). destruct (Hs s) as [-> ->]. auto.
+Qed.
+
+Ltac r12_split :=
+  match goal with |- R12 _ _ => split; [intros Hss'|intros Hss'] end.
+
+Lemma push_R12 : forall s ms len, R12 s ms ->
+  R12 (snd (ss_push s len))
+      (mk_ms (m_w ms + zN (fst (ss_push s len))) (m_hi ms) (m_fin ms) (m_rst ms) (m_lim ms)).
+Proof.
+  intros s ms len [Q0 Q1]. unfold ss_push.
+  destruct (s_ss s =? 0) eqn:E0; cbn [negb]; b2p.
+  2:{ cbn [fst snd]. replace (m_w ms + zN (-1)) with (m_w ms) by (unfold zN; cbn; lia).
+      split; [intros Hz; cbn in Hz; contradiction|]. intros _. destruct (Q1 E0) as (C1 & C2 & C2' & C3 & C4 & C5 & C6 & C7).
+      cbn. repeat split; auto. }
+  destruct (Q0 E0) as (A1 & A2 & A3 & A4 & A5 & A6 & A7 & A8 & A9 & A9' & A10).
+  assert (Hsame : R12 s (mk_ms (m_w ms + 0) (m_hi ms) (m_fin ms) (m_rst ms) (m_lim ms))).
+  { split; [|intros Hn; contradiction]. intros _. cbn. rewrite N.add_0_r.
+    split; [exact A1|]. split; [exact A2|]. split; [exact A3|]. split; [exact A4|]. split; [exact A5|].
+    split; [exact A6|]. split; [exact A7|]. split; [exact A8|]. split; [exact A9|]. split; [exact A9'|]. exact A10. }
+  destruct (len =? 0); [exact Hsame|].
+  destruct (s_ds s =? 0) eqn:Ed; cbn [negb]; b2p.
+  2:{ cbn [fst snd]. replace (zN (-1)) with 0 by reflexivity. exact Hsame. }
+  destruct (s_maxbuf s - (s_total s - s_head s) =? 0); [exact Hsame|].
+  cbn [fst snd]. unfold zN, Nz. rewrite N2Z.id.
+  split; [|intros Hn; cbn in Hn; contradiction]. intros _. cbn.
+  split; [exact A1|]. split; [lia|]. split; [lia|]. split; [lia|].
+  split; [eapply bounded_mono; [|exact A5]; lia|]. split; [eapply infl_bounded_mono; [|exact A6]; lia|].
+  split; [exact A7|]. split; [lia|]. split; [exact A9|]. split; [exact A9'|].
+  intros z Hz. destruct (A10 z Hz) as (_ & Z2 & _). lia.
+Qed.
+
+Lemma finish_R12 : forall s ms, R12 s ms -> R12 (snd (ss_finish s)) ms.
+Proof.
+  intros s ms [Q0 Q1]. unfold ss_finish.
+  destruct (s_ss s =? 0) eqn:E0; cbn [negb]; b2p.
+  2:{ cbn [snd]. split; [intros Hz; cbn in Hz; contradiction|]. intros _. destruct (Q1 E0) as (C1 & C2 & C2' & C3 & C4 & C5 & C6 & C7).
+      cbn. repeat split; auto. }
+  destruct (Q0 E0) as (A1 & A2 & A3 & A4 & A5 & A6 & A7 & A8 & A9 & A9' & A10).
+  destruct (s_ds s =? 5) eqn:E5; cbn [snd]; b2p.
+  { split; [|intros Hn; cbn in Hn; contradiction]. intros _. cbn.
+    split; [exact A1|]. split; [exact A2|]. split; [exact A3|]. split; [exact A4|]. split; [exact A5|].
+    split; [exact A6|]. split; [exact A7|]. split; [exact A8|]. split; [exact A9|]. split; [exact A9'|]. exact A10. }
+  destruct (s_ds s =? 0) eqn:Ed; cbn [snd]; b2p; [|split; assumption].
+  split; [|intros Hn; cbn in Hn; contradiction]. intros _. cbn.
+  split; [exact A1|]. split; [exact A2|]. split; [exact A3|]. split; [exact A4|]. split; [exact A5|].
+  split; [exact A6|]. split; [exact A7|]. split; [exact A8|]. split; [discriminate|]. split; [exact A9'|].
+  intros z Hz. destruct (A10 z Hz) as (_ & Z2 & _). lia.
+Qed.
+
+(* reset: the final size fixed here is the acquired credit; if a FIN had announced the size, all data
+   had been transmitted, so the credit equals that size *)
+Lemma reset_R12 : forall s ms code app, R03 s ms -> R12 s ms -> R12 (ss_reset s code app) ms.
+Proof.
+  intros s ms code app (P1 & P2 & P3 & P4 & P5 & P6 & P7) [Q0 Q1]. unfold ss_reset.
+  destruct (s_ss s =? 0) eqn:E0; cbn [negb]; b2p; [|split; assumption].
+  destruct (s_ds s =? 5) eqn:E5; b2p; [split; assumption|].
+  destruct (Q0 E0) as (A1 & A2 & A3 & A4 & A5 & A6 & A7 & A8 & A9 & A9' & A10).
+  split; [intros Hz; cbn in Hz; discriminate|]. intros _. rewrite A9'. cbn.
+  repeat split; auto.
+  - unfold m_used in P1. destruct (m_fin ms); lia.
+  - intros z Hz. destruct (A10 z Hz) as (Z1 & Z2 & Z3). subst z.
+    assert (Hd : s_ds s = 2 \/ s_ds s = 3 \/ s_ds s = 4) by lia.
+    destruct (P6 Hd). lia.
+Qed.
+
+Lemma msd_R12 : forall s ms v lim, R12 s ms ->
+  R12 (ss_max_stream_data s v) (mk_ms (m_w ms) (m_hi ms) (m_fin ms) (m_rst ms) lim).
+Proof.
+  intros s ms v lim [Q0 Q1]. unfold ss_max_stream_data.
+  destruct (s_ss s =? 0) eqn:E0; b2p.
+  - destruct (Q0 E0) as (A1 & A2 & A3 & A4 & A5 & A6 & A7 & A8 & A9 & A9' & A10).
+    split; [|intros Hn; cbn in Hn; contradiction]. intros _.
+    unfold sfc_set_max_sd. dif; cbn;
+      (split; [exact A1|]; split; [exact A2|]; split; [exact A3|]; split; [exact A4|]; split; [exact A5|];
+       split; [exact A6|]; split; [exact A7|]; split; [exact A8|]; split; [exact A9|]; split; [exact A9'|]; exact A10).
+  - split; [intros Hz; contradiction|]. intros _. destruct (Q1 E0) as (C1 & C2 & C2' & C3 & C4 & C5 & C6 & C7).
+    cbn. repeat split; auto.
+Qed.
+
+Lemma infl_bounded_filter : forall B f l, infl_bounded B l -> infl_bounded B (filter f l).
+Proof.
+  intros B f l H. unfold infl_bounded in *. rewrite Forall_forall in *. intros x Hx.
+  apply filter_In in Hx. apply H. tauto.
+Qed.
+
+Lemma bounded_fold_iadd : forall B hit lost, bounded B lost -> infl_bounded B hit ->
+  bounded B (fold_left (fun acc t => iadd (snd (fst t)) (snd (fst t) + snd t) acc) hit lost).
+Proof.
+  intros B hit. induction hit as [|t r IH]; intros lost HB HI; cbn [fold_left]; [exact HB|].
+  inversion HI; subst. apply IH; [apply bounded_iadd; assumption|assumption].
+Qed.
+
+Lemma ack_R12 : forall s ms lo hi, R12 s ms -> R12 (ss_ack s lo hi) ms.
+Proof.
+  intros s ms lo hi [Q0 Q1]. unfold ss_ack. cbv zeta.
+  set (hit := filter (in_pn lo hi) (s_infl s)).
+  set (rest := filter (fun t => negb (in_pn lo hi t)) (s_infl s)).
+  set (pend := fold_left (fun acc t => isub acc (snd (fst t)) (snd (fst t) + snd t)) hit (s_pend s)).
+  set (ds1 := if (s_ds s =? 2) && in_rng lo hi (s_finpn s) then 4 else s_ds s).
+  set (any := match hit with [] => false | _ :: _ => true end).
+  set (lost := if any then iinter (s_lost s) pend else s_lost s).
+  set (infl := if any then match pend with [] => [] | _ :: _ => rest end else rest).
+  set (done := (ds1 =? 4) && match infl, pend, lost with [], [], [] => true | _, _, _ => false end).
+  set (rst_hit := (s_ss s =? 1) && match s_rst s with DInfl pn => in_rng lo hi pn | _ => false end).
+  destruct (N.eq_dec (s_ss s) 0) as [Hss|Hss].
+  - destruct (Q0 Hss) as (A1 & A2 & A3 & A4 & A5 & A6 & A7 & A8 & A9 & A9' & A10).
+    assert (Hrh : rst_hit = false) by (unfold rst_hit; rewrite Hss; reflexivity).
+    rewrite Hrh. split; [|intros Hn; cbn in Hn; contradiction]. intros _. cbn.
+    assert (Hds1 : ds1 = s_ds s \/ (s_ds s = 2 /\ ds1 = 4))
+      by (unfold ds1; destruct ((s_ds s =? 2) && in_rng lo hi (s_finpn s))%bool eqn:E; b2p; auto).
+    split; [exact A1|]. split; [exact A2|]. split; [exact A3|]. split; [exact A4|].
+    split. { unfold lost. destruct any; [apply bounded_iinter|]; exact A5. }
+    split. { unfold infl. destruct any; [destruct pend; [constructor|]|]; apply infl_bounded_filter; exact A6. }
+    split. { destruct done; cbn; exact A7. }
+    split. { destruct done; cbn; exact A8. }
+    split. { destruct done; [discriminate|]. destruct Hds1 as [->|[_ ->]]; [exact A9|discriminate]. }
+    split; [exact A9'|].
+    intros z Hz. destruct (A10 z Hz) as (Z1 & Z2 & Z3). split; [exact Z1|].
+    destruct done; [lia|]. destruct Hds1 as [->|[_ ->]]; lia.
+  - destruct (Q1 Hss) as (C1 & C2 & C2' & C3 & C4 & C5 & C6 & C7).
+    assert (Hhit : hit = []) by (unfold hit; rewrite C2'; reflexivity).
+    assert (Hany : any = false) by (unfold any; rewrite Hhit; reflexivity).
+    assert (Hds1 : ds1 = 6) by (unfold ds1; rewrite C1; reflexivity).
+    assert (Hdone : done = false) by (unfold done; rewrite Hds1; reflexivity).
+    rewrite Hdone. split.
+    + intros Hz. cbn in Hz. destruct rst_hit; [discriminate|contradiction].
+    + intros _. cbn. unfold lost, infl. rewrite Hany. unfold rest. rewrite C2'. cbn [filter].
+      repeat split; auto.
+      unfold ps_ack. rewrite C5. exact C5.
+Qed.
+
+Lemma loss_R12 : forall s ms lo hi, R12 s ms -> R12 (ss_loss s lo hi) ms.
+Proof.
+  intros s ms lo hi [Q0 Q1]. unfold ss_loss. cbv zeta.
+  set (hit := filter (in_pn lo hi) (s_infl s)).
+  set (rest := filter (fun t => negb (in_pn lo hi t)) (s_infl s)).
+  set (lost0 := fold_left (fun acc t => iadd (snd (fst t)) (snd (fst t) + snd t) acc) hit (s_lost s)).
+  set (fin_lost := (s_ds s =? 2) && in_rng lo hi (s_finpn s)).
+  set (any := match hit with [] => fin_lost | _ :: _ => true end).
+  destruct (N.eq_dec (s_ss s) 0) as [Hss|Hss].
+  - destruct (Q0 Hss) as (A1 & A2 & A3 & A4 & A5 & A6 & A7 & A8 & A9 & A9' & A10).
+    split; [|intros Hn; cbn in Hn; contradiction]. intros _. cbn.
+    assert (HB0 : bounded (s_total s) lost0)
+      by (apply bounded_fold_iadd; [exact A5|apply infl_bounded_filter; exact A6]).
+    split; [exact A1|]. split; [exact A2|]. split; [exact A3|]. split; [exact A4|].
+    split. { destruct any; [apply bounded_iinter|]; exact HB0. }
+    split; [apply infl_bounded_filter; exact A6|].
+    split. { destruct any; cbn; exact A7. }
+    split. { destruct any; cbn; exact A8. }
+    split. { destruct fin_lost; [discriminate|exact A9]. }
+    split. { rewrite A9'. reflexivity. }
+    intros z Hz. destruct (A10 z Hz) as (Z1 & Z2 & Z3). split; [exact Z1|]. destruct fin_lost; lia.
+  - destruct (Q1 Hss) as (C1 & C2 & C2' & C3 & C4 & C5 & C6 & C7).
+    assert (Hhit : hit = []) by (unfold hit; rewrite C2'; reflexivity).
+    assert (Hfl : fin_lost = false) by (unfold fin_lost; rewrite C1; reflexivity).
+    assert (Hany : any = false) by (unfold any; rewrite Hhit; exact Hfl).
+    split; [intros Hz; cbn in Hz; contradiction|]. intros _. cbn.
+    rewrite Hany, Hfl. unfold lost0, rest. rewrite Hhit, C2'. cbn [fold_left filter].
+    repeat split; auto. unfold ps_loss. rewrite C5. exact C5.
+Qed.
+
+Lemma ack_ids : forall lo hi s, s_sid (ss_ack s lo hi) = s_sid s /\ s_k (ss_ack s lo hi) = s_k s.
+Proof. intros. split; reflexivity. Qed.
+Lemma loss_ids : forall lo hi s, s_sid (ss_loss s lo hi) = s_sid s /\ s_k (ss_loss s lo hi) = s_k s.
+Proof. intros. split; reflexivity. Qed.
+
+Lemma offer_window12 : forall l c i ml c' l', Rall12 i l ml -> offer_window c l = (c', l') -> Rall12 i l' ml.
+Proof.
+  induction l as [|s t IH]; intros c i ml c' l' HR H; cbn [offer_window] in H.
+  - injection H as <- <-. exact HR.
+  - destruct ml as [|ms mt]; cbn [Rall12] in HR; [contradiction|]. destruct HR as (K & R & T).
+    destruct (f_st (s_fc s) =? 2).
+    + destruct (if s_ss s =? 0 then sfc_try_acquire c (s_fc s) else (c, s_fc s)) as [c1 f1] eqn:Ea.
+      assert (HR1 : R12 (set_fc s f1) ms).
+      { destruct R as [Q0 Q1]. destruct (s_ss s =? 0) eqn:E0; b2p.
+        - destruct (Q0 E0) as (A1 & A2 & A3 & A4 & A5 & A6 & A7 & A8 & A9 & A9' & A10).
+          destruct (try_acquire_high _ _ _ _ Ea A7) as (T1 & T2 & T3).
+          split; [|intros Hn; cbn in Hn; contradiction]. intros _. cbn.
+          split; [exact A1|]. split; [exact A2|]. split; [exact A3|]. split; [exact A4|]. split; [exact A5|].
+          split; [exact A6|]. split; [exact T1|]. split; [lia|]. split; [exact A9|]. split; [exact A9'|]. exact A10.
+        - injection Ea as <- <-. destruct s; split; assumption. }
+      destruct (c_avail c1 =? 0).
+      * injection H as <- <-. cbn [Rall12]. auto.
+      * destruct (offer_window c1 t) as [c2 t2] eqn:Eo. injection H as <- <-.
+        cbn [Rall12]. split; [exact K|]. split; [exact HR1|]. eapply IH; eauto.
+    + destruct (offer_window c t) as [c2 t2] eqn:Eo. injection H as <- <-.
+      cbn [Rall12]. split; [exact K|]. split; [exact R|]. eapply IH; eauto.
+Qed.
+
+Lemma chk_frames_det : forall chkA chkB n fs m ma mb,
+  chk_frames chkA n m fs = Some ma -> chk_frames chkB n m fs = Some mb -> ma = mb.
+Proof.
+  intros chkA chkB n. induction fs as [|f t IH]; intros m ma mb HA HB; cbn [chk_frames] in *.
+  - congruence.
+  - destruct (chkA m f); [|discriminate]. destruct (chkB m f); [|discriminate]. eapply IH; eauto.
+Qed.
+
+Definition I12 (n : N) (k : conn) (m : mon) : Prop :=
+  INV03 n k m /\ Rall12 0 (k_streams k) (m_streams m).
+
+Lemma I12_upd : forall n k m i (F : sst -> sst) (G : mstream -> mstream),
+  I12 n k m -> keeps F -> (forall s ms, R03 s ms -> R03 s (G ms)) ->
+  (forall ms, R03 (get_stream k i) ms -> R12 (get_stream k i) ms -> R12 (F (get_stream k i)) (G ms)) ->
+  s_k (F (get_stream k i)) = s_k (get_stream k i) ->
+  I12 n (with_stream k i F) (with_ms m i G).
+Proof.
+  intros n k m i F G [H03 H12] HK HG HR Hk. split; [apply INV03_upd; auto|].
+  unfold with_stream, with_ms. cbn. destruct H03 as (_ & H3 & _).
+  apply (Rall12_upd_at F G (sst_new 0 0 0)); auto. split; [apply (HK _)|exact Hk].
+Qed.
+
+Theorem judge12_run : forall case, judge12 case (run case) = true.
+Proof.
+  intros case. unfold judge12, judge_with, run.
+  destruct (nx case) as [a r0]. destruct (nx r0) as [b r1]. destruct (nx r1) as [c r2]. destruct (nx r2) as [d r3].
+  set (salt := zN a mod 65536). set (n := zN c mod 4 + 1).
+  assert (Hinit : forall cnt i r, let '(l, r') := mk_streams i cnt (max_buf_of (zN d)) r in
+            let '(ml, r'') := mk_mstreams cnt r in
+            r'' = r' /\ length l = cnt /\ Rall i l ml /\ Rall12 i l ml /\ sum_acq l = 0).
+  { induction cnt as [|cnt IH]; intros i r; cbn [mk_streams mk_mstreams].
+    - repeat split; auto.
+    - destruct (nx r) as [w rr]. specialize (IH (S i) rr).
+      destruct (mk_streams (S i) cnt (max_buf_of (zN d)) rr) as [l r'].
+      destruct (mk_mstreams cnt rr) as [ml r'']. destruct IH as (E1 & E2 & E3 & E3' & E4).
+      cbn [length Rall Rall12 sum_acq fold_right]. fold (sum_acq l).
+      split; [exact E1|]. split; [lia|]. split.
+      { split; [unfold sst_new, sid_initial_bidi_client, stream_id_step; cbn; lia|]. split; [|exact E3].
+        unfold R03, sst_new, sfc_new, m_used. cbn. repeat split; try lia; try (intros H; discriminate H). }
+      split.
+      { split; [split; [unfold sst_new, sid_initial_bidi_client, stream_id_step; cbn; lia|reflexivity]|]. split; [|exact E3'].
+        unfold R12, sst_new, sfc_new. cbn. split; [|intros Hn; contradiction]. intros _.
+        repeat split; try lia; try constructor; try discriminate. }
+      cbn. lia. }
+  specialize (Hinit (N.to_nat n) 0%nat r3).
+  destruct (mk_streams 0 (N.to_nat n) (max_buf_of (zN d)) r3) as [l r4].
+  destruct (mk_mstreams (N.to_nat n) r3) as [ml r5]. destruct Hinit as (E1 & E2 & E3 & E3' & E4). subst r5.
+  assert (Hn : 0 < n) by (unfold n; generalize (zN c mod 4); intros; lia).
+  set (I := I12 n).
+  assert (HI0 : I (mk_conn (cfc_new (N.min (zN b) varint_max)) l 0) (mk_mon ml (N.min (zN b) varint_max))).
+  { split; [|exact E3']. unfold INV03, cfc_new. cbn [k_streams k_flow m_streams m_limd c_avail c_total]. rewrite E4. repeat split; auto. }
+  assert (Hwalk := walk_run_ops chk12 salt n I Hn).
+  match type of Hwalk with ?A -> _ => assert (H1 : A) by (intros k m [[HL _] _]; exact HL); specialize (Hwalk H1); clear H1 end.
+  (* push *)
+  match type of Hwalk with ?A -> _ => assert (H1 : A) end.
+  { intros k m i len res s' HI Hi Ep. split.
+    - unfold ss_push in Ep. repeat match type of Ep with context [if ?b then _ else _] => destruct b end;
+        injection Ep as <- _; unfold Nz; lia.
+    - replace s' with (snd (ss_push (get_stream k i) len)) by (rewrite Ep; reflexivity).
+      replace res with (fst (ss_push (get_stream k i) len)) by (rewrite Ep; reflexivity).
+      rewrite (with_stream_const k i (fun s => snd (ss_push s len))).
+      apply I12_upd; auto using keeps_push.
+      + intros ms _ HR. apply push_R12. exact HR.
+      + unfold ss_push. dif; reflexivity. }
+  specialize (Hwalk H1); clear H1.
+  (* finish *)
+  match type of Hwalk with ?A -> _ => assert (H1 : A) end.
+  { intros k m i res s' HI Hi Ep.
+    replace s' with (snd (ss_finish (get_stream k i))) by (rewrite Ep; reflexivity).
+    rewrite (with_stream_const k i (fun s => snd (ss_finish s))).
+    rewrite <- (with_ms_id m i). apply I12_upd; auto using keeps_finish.
+    + intros ms _ HR. apply finish_R12. exact HR.
+    + unfold ss_finish. dif; reflexivity. }
+  specialize (Hwalk H1); clear H1.
+  (* reset / stop_sending *)
+  match type of Hwalk with ?A -> _ => assert (H1 : A) end.
+  { intros k m i code app HI Hi. rewrite <- (with_ms_id m i). apply I12_upd; auto using keeps_reset.
+    + intros ms H3 HR. apply reset_R12; assumption.
+    + unfold ss_reset. dif; reflexivity. }
+  specialize (Hwalk H1); clear H1.
+  (* transmit *)
+  match type of Hwalk with ?A -> _ => assert (H1 : A) end.
+  { intros k m t cap cc md k' fs [H03 H12] Ht Hc Hcap Et.
+    destruct (conn_transmit_ok salt n _ _ _ _ _ _ _ _ H03 Hcap Et) as [m3 [Hc3 HI3]].
+    pose proof H03 as (HL & _).
+    destruct (conn_transmit12 salt n _ _ _ _ _ _ _ _ HL H12 Et) as [m' [Hc12 [HL' HR']]].
+    exists m'. split; [exact Hc12|]. split; [|exact HR'].
+    rewrite (chk_frames_det _ _ _ _ _ _ _ Hc12 Hc3). exact HI3. }
+  specialize (Hwalk H1); clear H1.
+  (* ack *)
+  match type of Hwalk with ?A -> _ => assert (H1 : A) end.
+  { intros k m lo hi [H03 H12]. split.
+    - destruct H03 as (I1 & I2 & I3 & I4). unfold INV03, conn_ack. cbn. rewrite map_length. repeat split; auto.
+      + apply Rall_map; auto; intros s; try (intros ms); apply (keeps_ack lo hi s).
+      + rewrite sum_acq_map; auto. intros s. apply (keeps_ack lo hi s).
+    - unfold conn_ack. cbn. apply Rall12_map; auto using ack_R12, ack_ids. }
+  specialize (Hwalk H1); clear H1.
+  (* loss *)
+  match type of Hwalk with ?A -> _ => assert (H1 : A) end.
+  { intros k m lo hi [H03 H12]. split.
+    - destruct H03 as (I1 & I2 & I3 & I4). unfold INV03, conn_loss. cbn. rewrite map_length. repeat split; auto.
+      + apply Rall_map; auto; intros s; try (intros ms); apply (keeps_loss lo hi s).
+      + rewrite sum_acq_map; auto. intros s. apply (keeps_loss lo hi s).
+    - unfold conn_loss. cbn. apply Rall12_map; auto using loss_R12, loss_ids. }
+  specialize (Hwalk H1); clear H1.
+  (* MAX_STREAM_DATA *)
+  match type of Hwalk with ?A -> _ => assert (H1 : A) end.
+  { intros k m i v [H03 H12] Hi. split.
+    - destruct H03 as (I1 & I2 & I3 & I4). unfold INV03, with_stream, with_ms. cbn.
+      rewrite upd_nth_length. repeat split; auto.
+      + apply Rall_upd; auto using msd_R03, msd_sid.
+      + rewrite sum_acq_upd; auto using msd_acq.
+    - unfold with_stream, with_ms. cbn. destruct H03 as (_ & H3 & _).
+      apply (Rall12_upd_at _ _ (sst_new 0 0 0)); auto.
+      + intros ms _ HR. apply msd_R12. exact HR.
+      + split; [apply msd_sid|]. unfold ss_max_stream_data. dif; reflexivity. }
+  specialize (Hwalk H1); clear H1.
+  (* MAX_DATA *)
+  match type of Hwalk with ?A -> _ => assert (H1 : A) end.
+  { intros k m v [H03 H12].
+    assert (H03' : exists m', INV03 n (conn_max_data k v) m' /\ m' = mk_mon (m_streams m) (N.max (m_limd m) v)).
+    { destruct H03 as (I1 & I2 & I3 & I4). eexists. split; [|reflexivity]. unfold INV03, conn_max_data.
+      set (c1 := cfc_max_data (k_flow k) v).
+      assert (Hc1 : c_total c1 = N.max (m_limd m) v /\ sum_acq (k_streams k) + c_avail c1 = c_total c1).
+      { unfold c1, cfc_max_data. destruct (v <=? c_total (k_flow k)) eqn:E; cbn; b2p; lia. }
+      destruct Hc1 as [T1 T2].
+      destruct (c_avail c1 =? 0); [cbn [k_streams k_flow m_streams m_limd]; repeat split; auto|].
+      destruct (offer_window c1 (k_streams k)) as [c2 l2] eqn:Eo.
+      destruct (offer_window_ok _ _ _ _ _ _ I2 Eo) as (J1 & J2 & J3 & J4).
+      cbn [k_streams k_flow m_streams m_limd]. repeat split; auto; lia. }
+    destruct H03' as [m' [HI' ->]]. split; [exact HI'|].
+    unfold conn_max_data. cbn [m_streams].
+    destruct (c_avail (cfc_max_data (k_flow k) v) =? 0); [exact H12|].
+    destruct (offer_window (cfc_max_data (k_flow k) v) (k_streams k)) as [c2 l2] eqn:Eo.
+    cbn [k_streams]. eapply offer_window12; eauto. }
+  specialize (Hwalk H1); clear H1.
+  apply Hwalk. exact HI0.
+Qed.
+
+(* ---------------------------------------------------------------------------------------------- *)
+(* what the per-frame check of judge12 means                                                        *)
+
+Lemma eqb_list_eq : forall a b, eqb_list a b = true -> a = b.
+Proof.
+  unfold eqb_list. induction a as [|x t IH]; intros [|y u] H; cbn in H; try discriminate; [reflexivity|].
+  apply andb_true_iff in H. destruct H as [Hl H]. cbn [combine forallb fst snd] in H.
+  apply andb_true_iff in H. destruct H as [Hx H]. apply N.eqb_eq in Hx. subst y. f_equal.
+  apply IH. apply andb_true_intro. split; assumption.
+Qed.
+
+(* STREAM: the payload is the slice of the written bytes at its offset (frames_are_slices), it lies
+   within what was written, the stream was not reset (quiet_after_reset), it ends at or below an
+   announced final size (nothing_beyond_final), and a FIN announces a size that is not below anything
+   sent before and equals any size announced before (final_size_stable) *)
+Theorem chk12_stream_meaning : forall salt n m f, fr_kind f = 1 -> chk12 salt n m f = true ->
+  exists i, frame_stream n f = Some i /\
+    let s := get_ms m i in let e := fr_val f + N.of_nat (length (fr_data f)) in
+    m_rst s = false /\ e <= m_w s /\
+    fr_data f = slice salt i (fr_val f) (N.of_nat (length (fr_data f))) /\
+    (forall z, m_fin s = Some z -> e <= z) /\
+    (fr_fin f = true -> m_hi s <= e /\ forall z, m_fin s = Some z -> z = e).
+Proof.
+  intros salt n m f Hk H. unfold chk12 in H. rewrite Hk in H.
+  change ((1 =? 1) || (1 =? 2) || (1 =? 3))%bool with true in H. cbv iota in H.
+  destruct (frame_stream n f) as [i|]; [|discriminate]. exists i. split; [reflexivity|].
+  change (1 =? 1) with true in H. cbv iota in H. cbv zeta.
+  repeat (apply andb_true_iff in H; destruct H as [H ?]).
+  split; [destruct (m_rst (get_ms m i)); [discriminate|reflexivity]|].
+  split; [apply N.leb_le; assumption|]. split; [apply eqb_list_eq; assumption|].
+  split.
+  - intros z Hz. rewrite Hz in *. apply N.leb_le. assumption.
+  - intros Hf. rewrite Hf in *.
+    match goal with Hx : (_ && _)%bool = true |- _ => apply andb_true_iff in Hx; destruct Hx as [Hx1 Hx2] end.
+    split; [apply N.leb_le; assumption|]. intros z Hz. rewrite Hz in Hx2. apply N.eqb_eq in Hx2. exact Hx2.
+Qed.
+
+(* RESET_STREAM: its final size is not below anything sent before and equals any size announced before *)
+Theorem chk12_reset_meaning : forall salt n m f, fr_kind f = 2 -> chk12 salt n m f = true ->
+  exists i, frame_stream n f = Some i /\
+    m_hi (get_ms m i) <= fr_val f /\ forall z, m_fin (get_ms m i) = Some z -> z = fr_val f.
+Proof.
+  intros salt n m f Hk H. unfold chk12 in H. rewrite Hk in H.
+  change ((2 =? 1) || (2 =? 2) || (2 =? 3))%bool with true in H. cbv iota in H.
+  destruct (frame_stream n f) as [i|]; [|discriminate]. exists i. split; [reflexivity|].
+  change (2 =? 1) with false in H. change (2 =? 2) with true in H. cbv iota in H.
+  apply andb_true_iff in H. destruct H as [H1 H2]. split; [apply N.leb_le; assumption|].
+  intros z Hz. rewrite Hz in H2. apply N.eqb_eq in H2. exact H2.
+Qed.
+
+(* STREAM_DATA_BLOCKED: only for a stream whose RESET_STREAM has not been sent *)
+Theorem chk12_blocked_meaning : forall salt n m f, fr_kind f = 3 -> chk12 salt n m f = true ->
+  exists i, frame_stream n f = Some i /\ m_rst (get_ms m i) = false.
+Proof.
+  intros salt n m f Hk H. unfold chk12 in H. rewrite Hk in H.
+  change ((3 =? 1) || (3 =? 2) || (3 =? 3))%bool with true in H. cbv iota in H.
+  destruct (frame_stream n f) as [i|]; [|discriminate]. exists i. split; [reflexivity|].
+  change (3 =? 1) with false in H. change (3 =? 2) with false in H. cbv iota in H.
+  destruct (m_rst (get_ms m i)); [discriminate|reflexivity].
+Qed.
